@@ -213,7 +213,7 @@ func c20GenSPM(t *rapid.T) c20Case {
 			Score: rapid.SampledFrom([]int{-7, -7, 0, 1, -1, -50, -300, 5}).Draw(t, "spanscore"),
 		})
 	}
-	c.Long = c20MaybeLong(t, c20SPMSpecials)
+	c.Long = c20MaybeLong(t)
 	return c
 }
 
